@@ -12,6 +12,7 @@ import (
 	"strconv"
 	"strings"
 	"sync"
+	"sync/atomic"
 	"time"
 
 	kafka "github.com/segmentio/kafka-go"
@@ -71,6 +72,10 @@ type Case struct {
 	Faults         []Fault  `json:"faults"`
 	// CloseEarly closes the writer while callers may still be running (C09).
 	CloseAfterUs int `json:"close_after_us,omitempty"`
+	// AbortAfterCalls: once every caller has returned, all connections are reset (stalled requests fail at once).
+	AbortAfterCalls bool `json:"abort_after_calls,omitempty"`
+	// CloseWatchdogMs overrides the derived watchdog for Close.
+	CloseWatchdogMs int `json:"close_watchdog_ms,omitempty"`
 	// CallTimeoutMs bounds each WriteMessages call (default 60 s).
 	CallTimeoutMs int `json:"call_timeout_ms,omitempty"`
 	// SettleMs: after the callers are done, wait (without any further input)
@@ -197,23 +202,25 @@ type ProduceSeen struct {
 
 // Result of a run.
 type Result struct {
-	Case        Case
-	Calls       []CallResult
-	Completions []Completion
-	Produces    []ProduceSeen
-	Choice      map[ID][2]any // topic, partition chosen by the balancer
-	OfferedN    map[ID]int
-	Logs        map[string][][]refcodec.Record // topic -> partition -> records
-	CloseErr    error
-	CloseTook   time.Duration
-	CloseHung   bool
-	Violations  []string
-	Stalls      int
-	Unsent      []ID // accepted messages not seen in any produce request when the settle period ended
-	SettledAt   time.Time
-	AfterClose  error // result of WriteMessages after Close
-	Cluster     *fakecluster.Cluster
-	Net         *memnet.Network
+	Case                        Case
+	Calls                       []CallResult
+	Completions                 []Completion
+	Produces                    []ProduceSeen
+	Choice                      map[ID][2]any // topic, partition chosen by the balancer
+	OfferedN                    map[ID]int
+	Logs                        map[string][][]refcodec.Record // topic -> partition -> records
+	CloseErr                    error
+	CloseTook                   time.Duration
+	CloseHung                   bool
+	CloseStarted, CloseReturned time.Time
+	Writer                      *kafka.Writer
+	Violations                  []string
+	Stalls                      int
+	Unsent                      []ID // accepted messages not seen in any produce request when the settle period ended
+	SettledAt                   time.Time
+	AfterClose                  error // result of WriteMessages after Close
+	Cluster                     *fakecluster.Cluster
+	Net                         *memnet.Network
 }
 
 type recordingBalancer struct {
@@ -283,6 +290,7 @@ func Run(c Case) *Result {
 		cl.SetVersions(0, 0, 0, c.ProduceMax)
 	}
 	var mu sync.Mutex
+	var released atomic.Bool
 	produceIdx := 0
 	faultOf := map[int64]string{}
 	cl.SetHook(func(cl *fakecluster.Cluster, r *fakecluster.Request) *fakecluster.Action {
@@ -308,6 +316,9 @@ func Run(c Case) *Result {
 		case "cut":
 			return &fakecluster.Action{CutResponse: true, CutResponseAt: f.CutAt, Tag: f.Kind}
 		case "stall":
+			if released.Load() {
+				return nil
+			}
 			return &fakecluster.Action{NoResponse: true, Tag: f.Kind}
 		case "slow":
 			return &fakecluster.Action{Delay: time.Duration(f.DelayMs) * time.Millisecond, Tag: f.Kind}
@@ -404,6 +415,15 @@ func Run(c Case) *Result {
 	}
 	callersDone := make(chan struct{})
 	go func() { wg.Wait(); close(callersDone) }()
+	if c.AbortAfterCalls {
+		go func() {
+			<-callersDone
+			released.Store(true)
+			for _, cs := range nw.Conns() {
+				nw.AbortConn(cs.ID, true)
+			}
+		}()
+	}
 	if c.CloseAfterUs > 0 {
 		select {
 		case <-callersDone:
@@ -453,7 +473,9 @@ func Run(c Case) *Result {
 	}
 	closed := make(chan struct{})
 	start := time.Now()
-	go func() { res.CloseErr = w.Close(); close(closed) }()
+	res.CloseStarted = start
+	res.Writer = w
+	go func() { res.CloseErr = w.Close(); res.CloseReturned = time.Now(); close(closed) }()
 	// watchdog: attempts x (timeout + backoff) per queued batch, generous
 	nb := 4
 	for _, calls := range c.Callers {
@@ -464,6 +486,9 @@ func Run(c Case) *Result {
 	limit := time.Duration(nb*c.MaxAttempts)*(wt+time.Duration(c.BackoffMaxMs)*time.Millisecond) + 10*time.Second
 	if limit > 90*time.Second {
 		limit = 90 * time.Second
+	}
+	if c.CloseWatchdogMs > 0 {
+		limit = time.Duration(c.CloseWatchdogMs) * time.Millisecond
 	}
 	select {
 	case <-closed:
